@@ -777,9 +777,30 @@ def check_history(inp) -> list:
     datasets = [(rs.normal(scale=0.05, size=(S, N, 3)), rs.normal(size=(S, N, 3))) for _ in range(2)]
     cutoff = inp.get("cutoff")
     cutd = None if cutoff is None else {int(k): v for k, v in cutoff.items()}
-    s = Symfc(cr.atoms(), cutoff=None if cutd is None else dict(cutd))
-    cur = None
+    pristine = [(d.copy(), f.copy()) for d, f in datasets]
+    shared = bool(inp.get("shared_arrays"))
+    if shared:
+        # the caller's arrays go to the constructor (kept by reference) and to a SECOND object; whatever the first object
+        # does afterwards (setters with same-shape replacements, solves) must not reach the arrays or the second object
+        s = Symfc(cr.atoms(), displacements=datasets[0][0], forces=datasets[0][1],
+                  cutoff=None if cutd is None else dict(cutd))
+        twin = Symfc(cr.atoms(), displacements=datasets[0][0], forces=datasets[0][1],
+                     cutoff=None if cutd is None else dict(cutd))
+        cur = 0
+    else:
+        s = Symfc(cr.atoms(), cutoff=None if cutd is None else dict(cutd))
+        twin = None
+        cur = None
     fresh_cache = {}
+
+    def arrays_intact():
+        for k_, ((d_, f_), (d0_, f0_)) in enumerate(zip(datasets, pristine)):
+            if not np.array_equal(d_, d0_) or not np.array_equal(f_, f0_):
+                return f"the caller's arrays of dataset {k_} were modified"
+        if twin is not None and (not np.array_equal(twin.displacements, pristine[0][0])
+                                 or not np.array_equal(twin.forces, pristine[0][1])):
+            return "the dataset of a second object built from the same arrays was modified"
+        return None
 
     def fresh(orders, ds, compact):
         key = (tuple(orders), ds, compact)
@@ -842,6 +863,9 @@ def check_history(inp) -> list:
                     out.append("solve modified the caller's displacement/force arrays")
         except np.linalg.LinAlgError:
             continue
+        bad = arrays_intact()
+        if bad:
+            out.append(f"after {kind}: {bad}")
         if out:
             break
     return out
@@ -881,7 +905,8 @@ def gen_history_inputs(rng, n):
                 ops.append(("solve", od, rng.random() < 0.5))
             else:
                 ops.append(("solve", rng.choice(combos[:3] if len(cr.numbers) > 3 else combos), rng.random() < 0.5))
-        inp = {"crystal": cr, "ops": ops, "n_snap": 60, "data_seed": rng.randrange(10 ** 6)}
+        inp = {"crystal": cr, "ops": ops, "n_snap": 60, "data_seed": rng.randrange(10 ** 6),
+               "shared_arrays": k % 2 == 0}
         if rng.random() < 0.5:
             # a cutoff for SOME orders only (beyond every distance, so the admissible space is unchanged but the
             # cutoff code path is taken for that order and must not leak into the others)
@@ -996,13 +1021,13 @@ def gen_process_history_inputs(rng, n):
         kinds = []
         for _ in range(rng.randint(1, 3)):
             r = rng.random()
-            if r < 0.3:
+            if r < 0.25:
                 kinds.append(("scaled", rng.choice([1.12, 1.25, 1.4])))      # larger cell first: fewer pairs in range
-            elif r < 0.55:
+            elif r < 0.45:
                 kinds.append(("subgroup_ops",))
-            elif r < 0.7 and len(vals) >= 2:
+            elif r < 0.6 and len(vals) >= 2:
                 kinds.append(("other_cutoff", float(vals[0] * 0.9 + 0.05)))
-            elif r < 0.85:
+            elif r < 0.72:
                 kinds.append(("permuted",))
             else:
                 kinds.append(("rerun",))
